@@ -61,8 +61,19 @@ func c08Gen(r *rand.Rand, tier string) []Case {
 		for j := range lock {
 			lock[j] = period{L: int64(2 + r.Intn(40)), A: []coin{{D: 0, V: big.NewInt(int64(1_000_000 + r.Intn(9_000_000)))}}}
 		}
+		// one case in three: the grant also carries a second denomination (spent through the monitor-only path send-b)
+		withB := r.Intn(3) == 0
+		var totB *big.Int
+		if withB {
+			totB = new(big.Int)
+			for j := range lock {
+				b := big.NewInt(int64(1_000 + r.Intn(9_000)))
+				lock[j].A = append(lock[j].A, coin{D: 1, V: b})
+				totB.Add(totB, b)
+			}
+		}
 		vest := "-"
-		if r.Intn(2) == 0 {
+		if r.Intn(2) == 0 || withB {
 			// a vesting schedule with the same total, split in two
 			tot := totalOf(lock)[0].V
 			a := new(big.Int).Rand(r, tot)
@@ -74,10 +85,21 @@ func c08Gen(r *rand.Rand, tier string) []Case {
 			if b.Sign() > 0 {
 				vs = append(vs, period{L: int64(1 + r.Intn(60)), A: []coin{{D: 0, V: b}}})
 			}
+			if withB {
+				// the second denomination vests early (vested but still locked up for most of the case)
+				vs[0].A = append(vs[0].A, coin{D: 1, V: totB})
+			}
 			vest = fmtPeriods(vs)
 		}
 		c = append(c, fmt.Sprintf("vgrant # k=%d off=%d lockup=%s vesting=%s", k, r.Intn(20)-5, fmtPeriods(lock), vest))
 		for j := 0; j < 6+r.Intn(8); j++ {
+			if withB && r.Intn(3) == 0 {
+				// more of the staking denomination delegated than the grant holds of it, then the second denomination spent
+				if r.Intn(2) == 0 {
+					c = append(c, fmt.Sprintf("vspend ? ? ? ? ? # k=%d path=delegate-msg amt=%s", k, pick(r, []string{"S", "S/2", "S-1"})))
+				}
+				c = append(c, fmt.Sprintf("vmon # k=%d path=send-b amt=%s", k, pick(r, amts)))
+			}
 			switch x := r.Intn(12); {
 			case x < 3:
 				c = append(c, fmt.Sprintf("vtime # dt=%d", 1+r.Intn(35)))
@@ -86,7 +108,11 @@ func c08Gen(r *rand.Rand, tier string) []Case {
 			case x < 10:
 				c = append(c, fmt.Sprintf("vspend ? ? ? ? ? # k=%d path=delegate-msg amt=%s", k, pick(r, amts)))
 			case x < 11:
-				c = append(c, fmt.Sprintf("vmon # k=%d path=%s amt=%s", k, pick(r, []string{"evm-value", "delegate-precompile"}), pick(r, amts)))
+				if withB && r.Intn(2) == 0 {
+					c = append(c, fmt.Sprintf("vmon # k=%d path=send-b amt=%s", k, pick(r, amts)))
+				} else {
+					c = append(c, fmt.Sprintf("vmon # k=%d path=%s amt=%s", k, pick(r, []string{"evm-value", "delegate-precompile"}), pick(r, amts)))
+				}
 			default:
 				if r.Intn(3) == 0 {
 					c = append(c, fmt.Sprintf("vclaw # k=%d", k))
@@ -110,14 +136,18 @@ func c08Exec(c Case) (outs []string, fails []Failure, tags []string) {
 	stakeMS := haqqstakingkeeper.NewMsgServerImpl(&app.StakingKeeper)
 	if !c08Funded {
 		ctx := nw.GetContext()
-		coins := sdk.NewCoins(sdk.NewCoin(denom, sdkmath.NewIntWithDecimal(1, 24)))
+		coins := sdk.NewCoins(sdk.NewCoin(denom, sdkmath.NewIntWithDecimal(1, 24)), sdk.NewCoin(schedDenoms[1], sdkmath.NewIntWithDecimal(1, 18)))
 		_ = app.BankKeeper.MintCoins(ctx, coinomicstypes.ModuleName, coins)
 		_ = app.BankKeeper.SendCoinsFromModuleToAccount(ctx, coinomicstypes.ModuleName, kr.GetAccAddr(0), coins)
 		_ = app.DaoKeeper
 		c08Funded = true
 	}
 	// the property's formula, computed independently of LockedCoins()
+	var lockedFormulaOf func(va *vestingtypes.ClawbackVestingAccount, t time.Time, denom string) *big.Int
 	lockedFormula := func(va *vestingtypes.ClawbackVestingAccount, t time.Time) *big.Int {
+		return lockedFormulaOf(va, t, denom)
+	}
+	lockedFormulaOf = func(va *vestingtypes.ClawbackVestingAccount, t time.Time, denom string) *big.Int {
 		orig := va.OriginalVesting.AmountOf(denom).BigInt()
 		unl := va.GetUnlockedCoins(t).AmountOf(denom).BigInt()
 		ves := va.GetVestedCoins(t).AmountOf(denom).BigInt()
@@ -291,6 +321,48 @@ func c08Exec(c Case) (outs []string, fails []Failure, tags []string) {
 					if _, err = stakeMS.Undelegate(sdk.WrapSDKContext(cctx), stakingtypes.NewMsgUndelegate(addr, val.GetOperator(), coins[0])); err == nil {
 						write()
 						tags = append(tags, "undelegate-ok")
+					}
+					return
+				case "send-b":
+					// a bank send of the grant's second denomination, amounts around what the account reports spendable
+					out = "skip"
+					dn := schedDenoms[1]
+					balB := app.BankKeeper.GetBalance(ctx, addr, dn).Amount.BigInt()
+					if !isVest || balB.Sign() == 0 {
+						return
+					}
+					av := new(big.Int).Sub(balB, va.LockedCoins(now).AmountOf(dn).BigInt())
+					if av.Sign() < 0 {
+						av = big.NewInt(0)
+					}
+					var a *big.Int
+					switch kv["amt"] {
+					case "S-1":
+						a = new(big.Int).Sub(av, big.NewInt(1))
+					case "S+1":
+						a = new(big.Int).Add(av, big.NewInt(1))
+					case "S/2":
+						a = new(big.Int).Quo(av, big.NewInt(2))
+					case "B":
+						a = new(big.Int).Set(balB)
+					default:
+						a = new(big.Int).Set(av)
+					}
+					if a.Sign() <= 0 {
+						a = big.NewInt(1)
+					}
+					if _, e := bankMS.Send(sdk.WrapSDKContext(cctx), banktypes.NewMsgSend(addr, dest, sdk.NewCoins(sdk.NewCoin(dn, sdkmath.NewIntFromBigInt(a))))); e != nil {
+						tags = append(tags, "send-b-reject")
+						return
+					}
+					write()
+					tags = append(tags, "send-b-ok")
+					ctx2 := nw.GetContext()
+					post := app.BankKeeper.GetBalance(ctx2, addr, dn).Amount.BigInt()
+					if va2, ok := app.AccountKeeper.GetAccount(ctx2, addr).(*vestingtypes.ClawbackVestingAccount); ok {
+						if lf := lockedFormulaOf(va2, now, dn); post.Cmp(lf) < 0 {
+							fl("C08:balance-below-locked:send-second-denomination", fmt.Sprintf("after sending %s%s the balance %s%s is below max(original−unlockedVested−delegated, unvested) = %s (delegated %s / original %s of the staking denomination)", a, dn, post, dn, lf, va2.DelegatedFree.Add(va2.DelegatedVesting...), va2.OriginalVesting))
+						}
 					}
 					return
 				case "evm-value", "delegate-precompile":
